@@ -359,63 +359,7 @@ func c11(r *core.Run) {
 		"filetree.MsgPostFile":    "reads the parent folder and writes the child entry (different keys by design, C10/R2)",
 		"storage.MsgAttest":       "keeper unit reads the form and the file, writes the proof (different kinds)",
 	}
-	nLW := 0
-	for _, h := range hs {
-		if _, ok := rekey[h.Key()]; ok {
-			continue
-		}
-		for _, fn := range p.Summary(h.Fn).Funcs {
-			type site struct {
-				call   ssa.CallInstruction
-				callee *ssa.Function
-				op     *core.StoreOp
-			}
-			var getters, setters []site
-			allInstrs(fn, func(in ssa.Instruction) {
-				call, ok := in.(ssa.CallInstruction)
-				if !ok {
-					return
-				}
-				for _, cal := range p.Callees(call) {
-					if gi := p.StoreGetter(cal); gi != nil && gi.Found {
-						for _, o := range p.StoreOps(cal) {
-							if o.Kind == "Get" {
-								getters = append(getters, site{call, cal, o})
-							}
-						}
-					}
-					for _, o := range p.StoreOps(cal) {
-						if o.Kind == "Set" {
-							setters = append(setters, site{call, cal, o})
-						}
-					}
-				}
-			})
-			for _, st := range setters {
-				name := st.op.Module + "/" + st.op.Prefix
-				var gts [][]string
-				for _, g := range getters {
-					if g.op.Module+"/"+g.op.Prefix == name {
-						gts = append(gts, keyTermsAtCall(p, g.call, g.callee, g.op))
-					}
-				}
-				if len(gts) == 0 {
-					continue
-				}
-				nLW++
-				wt := keyTermsAtCall(p, st.call, st.callee, st.op)
-				match := false
-				for _, gt := range gts {
-					if strings.Join(gt, "\x00") == strings.Join(wt, "\x00") && !strings.Contains(strings.Join(wt, ""), "?") {
-						match = true
-					}
-				}
-				r.Check(match, "C11/R7", fmt.Sprintf("%s:%s:loaded-key=written-key:%s", h.Key(), fn.Name(), name), p.InstrPos(st.call),
-					"the record written is keyed as the record loaded: "+strings.Join(wt, " / "),
-					fmt.Sprintf("the unit loads %s by %v but writes it under %v: the check and the write concern different records", name, gts, wt))
-			}
-		}
-	}
+	nLW := loadWriteKeyAgreement(r, "C11/R7", hs, rekey)
 	r.Floor("C11/R7", nLW, 15, "load/write pairs")
 
 	// ---- R4 wasm
